@@ -28,7 +28,8 @@ META = dict(
     engine="E4-sched-C", level="model_checking",
     technique="stateless model checking of the unchanged _embedding.h C text under a controlled scheduler: all "
               "schedules up to a preemption bound (fair spin-loop yields), 2-3 threads x 1-2 libraries x init "
-              "scenarios (ok / failing / recursive / cross-library / GIL released) x initial world (Python not yet / "
+              "scenarios (ok / failing / failing before the init code / recursive / cross-library / GIL released; "
+              "4-byte and 24-byte results) x initial world (Python not yet / "
               "already initialised / a first caller that owns the GIL) x 3 compile variants of the lock code, judged "
               "by a monitor of the statement",
     text="Every scheduling decision is at a CAS, barrier, mutex operation, assert (the spin loop's only statement), "
@@ -40,7 +41,10 @@ META = dict(
          "their calls (class_histogram world_*).  The #if arms for Python < 3.12 (int spin lock on tp_version_tag) "
          "and for _MSC_VER (InterlockedCompareExchangePointer, CRITICAL_SECTION; fake <Windows.h>) are compiled and "
          "explored as separate worlds (variant_*).  A deadlock is reported with its wait-for graph, classified in "
-         "the signature (startup-lock-cycle / gil-holder-waits-for-startup-lock).  Conformance runs of a REAL "
+         "the signature (startup-lock-cycle / gil-holder-waits-for-startup-lock).  Init kinds M (module init raises: "
+         "PyErr_Occurred after _CFFI_PYTHON_STARTUP_FUNC, exports table never filled) and C (Py_CompileString NULL) "
+         "fail before any init code runs (failure_before_init_code); ops g/h call a function with a 24-byte result "
+         "whose buffer is pre-filled with 0x55 and must be all zero after a failed init (result_24_bytes).  Conformance runs of a REAL "
          "embedded library: C host (Python not initialised), Python host with ctypes.CDLL callers (world P), and a "
          "deterministic handshake run in which a ctypes.PyDLL caller (GIL held) makes its first call while the init "
          "code runs (world H) next to its CDLL control (real_host_*).",
@@ -131,6 +135,18 @@ def _scenarios(ctx):
             out.append((1, kinds, 1, progs, world))
         for kinds in ("OO", "XO", "OX"):
             out.append((2, kinds, 1, ("0", "1"), "H0"))
+        # --- failures before the init code runs (audit gap 3, kinds M and C) ---
+        for k in ("M", "C"):
+            out.append((1, k + "O", 1, ("0", "0")))
+            out.append((1, k + "O", 1, ("s0", "0")))
+        out.append((2, "MO", 1, ("0", "1")))
+        out.append((2, "XM", 1, ("0", "1")))
+        out.append((1, "MO", 1, ("0", "0"), "P"))
+        # --- a 24-byte result (audit gap 5): ops g / h ---
+        for kinds, progs in (("FO", ("g", "g")), ("FO", ("0g", "g")), ("SO", ("g", "0")), ("MO", ("g", "0")),
+                             ("OO", ("g", "g")), ("RO", ("g", "0"))):
+            out.append((1, kinds, 1, progs))
+        out.append((2, "FF", 1, ("g", "h")))
         # --- the other #if arms of the lock code (audit gap 2) ---
         for v in ("py311", "msvc"):
             for kinds in ("OO", "FO", "RO"):
@@ -167,6 +183,24 @@ def _scenarios(ctx):
             for b in two:
                 out.append((2, a + b, 1, ("0", "1"), "P"))
                 out.append((2, a + b, 1, ("0", "1"), "H0"))
+        # --- failures before the init code runs (audit gap 3, kinds M and C) ---
+        for k in ("M", "C"):
+            out.append((1, k + "O", 2, ("0", "0")))
+            for progs in (("00", "0"), ("s0", "0"), ("0s", "s"), ("0", "0", "0")):
+                out.append((1, k + "O", 1, progs))
+            out.append((1, k + "O", 1, ("0", "0"), "P"))
+            for other in ("O", "F", "X", "M", "C"):
+                out.append((2, k + other, 1, ("0", "1")))
+                if other not in "MC":
+                    out.append((2, other + k, 1, ("0", "1")))
+        # --- a 24-byte result (audit gap 5): ops g / h ---
+        for k in ("O", "F", "R", "S", "M", "C"):
+            out.append((1, k + "O", 2, ("g", "g")))
+            for progs in (("0g", "g"), ("g", "0"), ("g0", "0"), ("sg", "g"), ("g", "g", "0")):
+                out.append((1, k + "O", 1, progs))
+        for kinds in ("FF", "OF", "FO", "XF", "MF"):
+            out.append((2, kinds, 1, ("g", "h")))
+            out.append((2, kinds, 1, ("gh", "hg")))
         # --- the other #if arms of the lock code (audit gap 2) ---
         for v in ("py311", "msvc"):
             for k in one:
@@ -231,6 +265,20 @@ def monitor(log):
                     bad.append("wrong-result")
             else:
                 bad.append("call-returned-without-initialisation")
+        elif k == "RETG":
+            # lib_g_<n>: 24-byte struct result; the wrapper reports 0 = 24 zero bytes, 1 = the stub
+            # function's 24 bytes, 2 = anything else (partly zeroed / partly the 0x55 pre-fill)
+            lib, tid, r = e[1], e[2], int(e[3])
+            calls[(lib, tid)] = calls.get((lib, tid), 0) - 1
+            st = initend.get(lib)
+            if st == "fail":
+                if r != 0:
+                    bad.append("nonzero-result-after-failed-init")
+            elif st == "ok":
+                if r != 1:
+                    bad.append("wrong-result")
+            else:
+                bad.append("call-returned-without-initialisation")
         elif k == "STARTRET":
             lib, r = str(e[1]), int(e[3])
             st = initend.get(lib)
@@ -268,7 +316,10 @@ def deadlock_shape(waits):
             if w.get(owner, "") == "g" + tid:
                 return "gil-holder-waits-for-startup-lock"
     if w and all(x.startswith("m") and not x.endswith("+G") for x in w.values()):
-        return "startup-lock-cycle"
+        # every owner is itself waiting: a cycle; otherwise a thread finished / went on without unlocking
+        return "startup-lock-cycle" if all(x[1:] in w for x in w.values()) else "startup-lock-never-released"
+    if w and all(x.startswith("g") for x in w.values()):
+        return "gil-never-released"
     return "other"
 
 
@@ -472,6 +523,10 @@ def run(ctx):
         ctx.count("world_" + {"": "fresh", "P": "python_preinitialised", "H": "gil_held_caller"}[sc[4][:1]],
                   r["stat"]["executions"])
         ctx.count("variant_" + sc[5], r["stat"]["executions"])
+        if any(c in "gh" for prog in sc[3] for c in prog):
+            ctx.count("result_24_bytes", r["stat"]["executions"])
+        if any(c in "MC" for c in sc[1][:sc[0]]):
+            ctx.count("failure_before_init_code", r["stat"]["executions"])
         if sc[4].startswith("H"):
             # vacuity of the H worlds: schedules in which the GIL holder was NOT the initialising thread
             ctx.count("gil_held_caller_distinct_logs", r["stat"]["distinct"])
